@@ -68,8 +68,9 @@ def make_image(
     base = datetime(2023, 5, 17, 12, 0, 0)
     if time_kind == "date":
         if series:
-            steps = np.cumsum(rng.integers(1, 5000, size=nt))
-            kw["date"] = [base + timedelta(seconds=int(s)) for s in steps]
+            # spans from seconds to several days, with fractional seconds
+            steps = np.cumsum(rng.integers(1, int(rng.choice([5000, 400000])), size=nt))
+            kw["date"] = [base + timedelta(seconds=int(s), microseconds=int(rng.integers(0, 10**6))) for s in steps]
         else:
             kw["date"] = base + timedelta(seconds=int(rng.integers(0, 10000)))
     elif time_kind == "time":
